@@ -60,6 +60,7 @@ struct FnInfo<'a> {
     src: &'a Src,
     loops: Vec<Value>,
     returns: Vec<Value>,
+    calls: Vec<Value>,
     closures: Vec<Value>,
     macros: Vec<Value>,
     awaits: usize,
@@ -177,6 +178,22 @@ impl<'a, 'ast> Visit<'ast> for FnInfo<'a> {
         }));
         syn::visit::visit_expr_loop(self, e);
     }
+    fn visit_expr_method_call(&mut self, e: &'ast syn::ExprMethodCall) {
+        let (a, b) = self.src.span(e.span());
+        self.calls.push(json!({"name": e.method.to_string(), "start": a, "end": b, "stmt": self.cur_stmt(),
+            "in_closure": self.depth_closure > 0}));
+        syn::visit::visit_expr_method_call(self, e);
+    }
+    fn visit_expr_call(&mut self, e: &'ast syn::ExprCall) {
+        if let syn::Expr::Path(p) = &*e.func {
+            if let Some(seg) = p.path.segments.last() {
+                let (a, b) = self.src.span(e.span());
+                self.calls.push(json!({"name": seg.ident.to_string(), "start": a, "end": b, "stmt": self.cur_stmt(),
+                    "in_closure": self.depth_closure > 0}));
+            }
+        }
+        syn::visit::visit_expr_call(self, e);
+    }
     fn visit_expr_return(&mut self, e: &'ast syn::ExprReturn) {
         let (a, b) = self.src.span(e.span());
         self.returns.push(json!({"ord": self.returns.len() + 1, "start": a, "end": b, "stmt": self.cur_stmt(),
@@ -248,6 +265,7 @@ fn sig_json(src: &Src, sig: &syn::Signature, block: Option<&syn::Block>) -> Valu
             src,
             loops: vec![],
             returns: vec![],
+            calls: vec![],
             closures: vec![],
             macros: vec![],
             awaits: 0,
@@ -270,6 +288,7 @@ fn sig_json(src: &Src, sig: &syn::Signature, block: Option<&syn::Block>) -> Valu
         o.insert("body_close".into(), json!(bc - 1));
         o.insert("loops".into(), Value::Array(fi.loops));
         o.insert("returns".into(), Value::Array(fi.returns));
+        o.insert("calls".into(), Value::Array(fi.calls));
         o.insert("closures".into(), Value::Array(fi.closures));
         o.insert("macros".into(), Value::Array(fi.macros));
         o.insert("awaits".into(), json!(fi.awaits));
